@@ -5,6 +5,8 @@ pub fn run(ctx: &Ctx) -> Report {
     let mut rep = Report::new("same object family as C17 through TextFormat, plus objects assembled from hostile source texts (<=3 (thorough 4) tokens over quotes, backslash, apostrophe, TAB, CR, x01, x7F, non-ASCII, ' | ', '====', '#', '.TEXT', NUL, digits and letters that continue an escape (7, n, u{41}, x41), U+2028, empty and whitespace-only lines; LF, CRLF and blank-line layouts; with and without final newline): TextFormat::deserialize(serialize(o)) == Some(o). non-trivial = object carrying a symbol table");
     objrt::run_family(ctx, &mut rep, true);
     objrt::run_hostile(ctx, &mut rep, true);
+    // life cycle: every 11th object's round trip again right after the reader was given a damaged copy of it on the same thread (14 kinds of damage)
+    objrt::run_after_failed_reads(ctx, &mut rep, true);
     rep.require(rep.acc.get("linked_objects") > 100 && rep.acc.get("assembled_objects") > 300, "assembled and linked objects explored");
     rep
 }
